@@ -19,7 +19,7 @@ RULE = ('random fields of dtype complex128 / float64 / int64 / bool in C, Fortra
         'requested spacing 0.31..1.7 x the FFT spacing; shifts 0 / integer / fractional samples per axis; methods mdft and czt; '
         'both directions; executor level additionally with per-axis Q = (Qy,Qx), Qy != Qx; masks: all-pass on a band-complete '
         'M x M grid (M >= both pupil sides), random real and complex masks on arbitrary (non-square) grids and samplings, '
-        'with shifts. A case is non-trivial unless the array is 1x1 / the embedding adds nothing / a = 1, b = 0; '
+        'with shifts; call histories over the shared executors: every (forward, backprop) pair of entry points (free functions, Wavefront methods, executor level; mdft with czt interleaved) as a-b-a / b-a / a-b-b-a / a-b-a-b-a on ONE sampling key, then random words of 3..7 steps; Wavefront.babinet on the same mask families with complex / binary / no Lyot stop. A case is non-trivial unless the array is 1x1 / the embedding adds nothing / a = 1, b = 0; '
         'distinct = distinct (item, input) tuples')
 ASSUMPTIONS = ['cases whose shift or Q is handed over as a float32 ndarray are compared at 2e-4 (NumPy computes with the precision of the '
                'argument the user chose), all others at 1e-9',
@@ -413,6 +413,192 @@ def pred_babinet_wavefront(c):
     return None if err <= L.tol_of(c, TOL) else f'babinet(B) != lyot*(field - T(1) + T(B)) (rel. err {err:.3g})'
 
 
+def _ref_T(f, mask, dx, efl, lam, fdx):
+    """to_fpm_and_back without shift as explicit physical-units DFT sums (independent of prysm)"""
+    m, n = f.shape
+    My, Mx = mask.shape
+    a = dx * fdx / (lam * efl)
+    cen = lambda k: np.arange(k) - k // 2     # noqa: E731
+    Ey = np.exp(-2j * np.pi * a * np.outer(cen(My), cen(m)))
+    Ex = np.exp(-2j * np.pi * a * np.outer(cen(n), cen(Mx)))
+    after = (a * (Ey @ f @ Ex)) * mask
+    return a * (np.conj(Ey).T @ after @ np.conj(Ex).T)
+
+
+def _bab_args(c):
+    f = _cfield(c)
+    mk = _mask(c)
+    lyot = None if c.get('lyot') == 'none' else (_field(c['seed'] + 21, f.shape) if c.get('lyot') == 'complex'
+                                                 else (_field(c['seed'] + 21, f.shape).real > -0.3).astype(float))
+    return f, mk, lyot
+
+
+def _bab_call(c, f, mk, lyot):
+    pr, _ = _impl()
+    wf = pr.Wavefront(f, c['lam'], c['dx'])
+    if c.get('mask_wf'):
+        mko = pr.Wavefront(_num(np.asarray(mk)).astype(complex), c['lam'], c['fdx'], 'psf')
+        return wf.babinet(c['efl'], lyot, mko, None if c['mask_wf'] is True else c['fdx'], method=c['method'])
+    return wf.babinet(c['efl'], lyot, mk, c['fdx'], method=c['method'])
+
+
+def pred_embed(c):
+    """fttools.pad2d(f, out_shape) puts sample n//2 of every axis on sample N//2 of the output (the embedding of the pad-invariance
+    relation)"""
+    _, ft = _impl()
+    f = _field(c['seed'], (c['m'], c['n']))
+    shape = (c['m'] + c['pad'][0], c['n'] + c['pad'][1])
+    real = ft.pad2d(f, out_shape=shape)
+    if real.shape != shape or not np.array_equal(real, embed(f, shape)):
+        return f'pad2d(f, out_shape={shape}) is not the origin-on-origin zero embedding of the {f.shape} array'
+    return None
+
+
+def pred_babinet_model(c):
+    """Wavefront.babinet(efl, lyot, fpm, fpm_dx) = lyot * (field - return through the complement 1 - fpm), against explicit
+    physical-units sums; the result is a pupil-plane Wavefront with the pupil's dx; arguments untouched"""
+    f, mk, lyot = _bab_args(c)
+    snaps = [x.copy() for x in (f, mk)] + ([lyot.copy()] if lyot is not None else [])
+    out = _bab_call(c, f, mk, lyot)
+    bad = L.check_wavefront(out, 'babinet(...)', f.shape, c['dx'], c['lam'], 'pupil')
+    if bad:
+        return bad
+    if not _unchanged((f, mk) + ((lyot,) if lyot is not None else ()), snaps):
+        return 'the field, the mask or the Lyot stop was modified in place'
+    fc = L.as_complex(f)
+    ref = fc - _ref_T(fc, 1 - _num(np.asarray(mk)).astype(complex), c['dx'], c['efl'], c['lam'], c['fdx'])
+    if lyot is not None:
+        ref = lyot * ref
+    err = _relerr(out.data, ref)
+    if err > L.tol_of(c, TOL):
+        return f'babinet differs from lyot * (field - return through 1 - mask) (rel. err {err:.3g}; method {c["method"]}, mask {np.asarray(mk).dtype})'
+    return None
+
+
+# ------------------------------------------------------------------------------------------------
+# call histories over the shared executors: forward, inverse AND *_backprop entry points on ONE sampling key
+# ------------------------------------------------------------------------------------------------
+HIST_FWD = ('ffs', 'ufs', 'fpm', 'wf_ffs', 'wf_fpm', 'babinet', 'dft2', 'idft2', 'czt_ffs', 'czt_fpm')
+HIST_BP = ('ffs_bp', 'ufs_bp', 'fpm_bp', 'wf_ffs_bp', 'wf_ufs_bp', 'wf_fpm_bp', 'babinet_bp', 'dft2_bp', 'idft2_bp')
+HIST_OPS = HIST_FWD + HIST_BP
+
+
+def _hist_run(c, op, env):
+    """one step of a history; every step uses the same pupil grid, mask grid, spacings and shift (one cache key per direction)"""
+    pr, ft = _impl()
+    m, n, My, Mx = c['m'], c['n'], c['My'], c['Mx']
+    lam, efl, dx, fdx = c['lam'], c['efl'], c['dx'], c['fdx']
+    sh = tuple(L.eff_shift(c, fdx))
+    bsh = (sh[0] * dx / fdx, sh[1] * dx / fdx)          # the return leg of to_fpm_and_back is given this shift
+    f, g, mk, lyot = env
+    Qf = tuple(pr.Q_for_sampling(s_ * dx, efl, lam, fdx) for s_ in (m, n))
+    Qb = tuple(pr.Q_for_sampling(s_ * fdx, efl, lam, dx) for s_ in (My, Mx))
+    shs, bshs = (sh[0] / fdx, sh[1] / fdx), (bsh[0] / dx, bsh[1] / dx)
+    W = pr.Wavefront
+    if op == 'ffs':
+        return pr.focus_fixed_sampling(f, dx, efl, lam, fdx, (My, Mx), shift=sh, method='mdft')
+    if op == 'czt_ffs':
+        return pr.focus_fixed_sampling(f, dx, efl, lam, fdx, (My, Mx), shift=sh, method='czt')
+    if op == 'ffs_bp':
+        return pr.focus_fixed_sampling_backprop(g, dx, efl, lam, fdx, (m, n), shift=sh)
+    if op == 'ufs':
+        return pr.unfocus_fixed_sampling(g, fdx, efl, lam, dx, (m, n), shift=bsh, method='mdft')
+    if op == 'ufs_bp':
+        return pr.unfocus_fixed_sampling_backprop(f, fdx, efl, lam, dx, (My, Mx), shift=bsh)
+    if op == 'fpm':
+        return pr.to_fpm_and_back(f, dx, efl, lam, mk, fdx, shift=sh, method='mdft')
+    if op == 'czt_fpm':
+        return pr.to_fpm_and_back(f, dx, efl, lam, mk, fdx, shift=sh, method='czt')
+    if op == 'fpm_bp':
+        return pr.to_fpm_and_back_backprop(f, dx, lam, efl, mk, fdx, shift=sh)
+    if op == 'wf_ffs':
+        return W(f, lam, dx).focus_fixed_sampling(efl, fdx, (My, Mx), shift=sh).data
+    if op == 'wf_ffs_bp':
+        return W(g, lam, fdx, 'psf').focus_fixed_sampling_backprop(efl, dx, (m, n), shift=sh).data
+    if op == 'wf_ufs_bp':
+        wfp = W(f, lam, dx)
+        if not hasattr(wfp, 'unfocus_fixed_sampling_backprop'):
+            return pr.unfocus_fixed_sampling_backprop(f, fdx, efl, lam, dx, (My, Mx), shift=bsh)
+        return wfp.unfocus_fixed_sampling_backprop(efl, fdx, (My, Mx), shift=bsh).data
+    if op == 'wf_fpm':
+        return W(f, lam, dx).to_fpm_and_back(efl, mk, fdx, shift=sh).data
+    if op == 'wf_fpm_bp':
+        return W(f, lam, dx).to_fpm_and_back_backprop(efl, mk, fdx, shift=sh).data
+    if op == 'babinet':
+        return W(f, lam, dx).babinet(efl, lyot, mk, fdx).data
+    if op == 'babinet_bp':
+        return W(f, lam, dx).babinet_backprop(efl, lyot, mk, fdx).data
+    if op == 'dft2':
+        return ft.mdft.dft2(f, Qf, (My, Mx), shift=shs)
+    if op == 'dft2_bp':
+        return ft.mdft.dft2_backprop(g, Qf, (m, n), shift=shs)
+    if op == 'idft2':
+        return ft.mdft.idft2(g, Qb, (m, n), shift=bshs)
+    if op == 'idft2_bp':
+        return ft.mdft.idft2_backprop(f, Qb, (My, Mx), shift=bshs)
+    raise ValueError(f'unknown history step {op}')
+
+
+def _hist_clear():
+    _, ft = _impl()
+    ft.mdft.clear()
+    ft.czt.clear()
+
+
+def pred_history(c):
+    """every step of a call history over the shared mdft / czt executors -- forward, inverse and *_backprop entry points, free
+    functions, Wavefront methods and executor level, all on the same sampling key -- returns what the same call returns on a
+    freshly cleared executor (no call changes what a later call computes); argument arrays untouched"""
+    m, n, My, Mx = c['m'], c['n'], c['My'], c['Mx']
+    env = (_field(c['seed'], (m, n)), _field(c['seed'] + 1, (My, Mx)), _field(c['seed'] + 2, (My, Mx)), _field(c['seed'] + 3, (m, n)))
+    snaps = [a.copy() for a in env]
+    hist = list(c['history'])
+    fresh = {}
+    for op in dict.fromkeys(hist):
+        _hist_clear()
+        fresh[op] = np.array(_hist_run(c, op, env))
+    if not _unchanged(env, snaps):
+        return 'an argument array was modified in place'
+    _hist_clear()
+    try:
+        for k, op in enumerate(hist):
+            r = np.asarray(_hist_run(c, op, env))
+            if r.shape != fresh[op].shape:
+                return f'step {k} ({op}) after {hist[:k]} has shape {r.shape}, on a fresh executor {fresh[op].shape}'
+            err = _relerr(r, fresh[op])
+            if not err <= 1e-12:
+                return (f'step {k} ({op}) after the calls {hist[:k]} differs from the same call on a freshly cleared executor '
+                        f'(rel. err {err:.3g}): an earlier call changed what this one computes')
+            if not _unchanged(env, snaps):
+                return f'step {k} ({op}) modified an argument array in place'
+    finally:
+        _hist_clear()
+    return None
+
+
+def _hist_case(rng, hi, history, shift=None):
+    m, n = int(rng.integers(2, hi + 1)), int(rng.integers(2, hi + 1))
+    My, Mx = int(rng.integers(2, hi + 3)), int(rng.integers(2, hi + 3))
+    if rng.integers(3) == 0:
+        n, Mx = m, My
+    lam, efl, dx = _optics(rng)
+    fdx = FACT[int(rng.integers(len(FACT)))] * lam * efl / (max(m, n) * dx)
+    sh = shift if shift is not None else (SHIFTS[int(rng.integers(len(SHIFTS)))] if rng.integers(2) else (0, 0))
+    return {'m': m, 'n': n, 'My': My, 'Mx': Mx, 'lam': lam, 'efl': efl, 'dx': dx, 'fdx': fdx, 'shift': list(sh),
+            'seed': int(rng.integers(1 << 30)), 'history': list(history)}
+
+
+def gen_history(rng, hi, i):
+    """systematic part: every (forward a, backprop b) pair as a-b-a, b-a, a-b-b-a, a-b-a-b-a; then random words over all steps"""
+    pairs = [(a, b) for a in HIST_FWD for b in HIST_BP]
+    shapes = (lambda a, b: [a, b, a], lambda a, b: [b, a], lambda a, b: [a, b, b, a], lambda a, b: [a, b, a, b, a])
+    if i < 2 * len(pairs):
+        a, b = pairs[i % len(pairs)]
+        return _hist_case(rng, hi, shapes[(i // len(pairs) + i) % len(shapes)](a, b))
+    k = int(rng.integers(3, 8))
+    return _hist_case(rng, hi, [HIST_OPS[int(rng.integers(len(HIST_OPS)))] for _ in range(k)])
+
+
 PREDS = {'linear': pred_linear, 'pad': pred_pad, 'transpose': pred_transpose, 'methods_agree': pred_methods_agree,
          'exec_transpose': pred_exec_transpose, 'exec_pad': pred_exec_pad, 'exec_separable': pred_exec_separable,
          'allpass': pred_allpass, 'babinet': pred_babinet, 'babinet_wavefront': pred_babinet_wavefront,
@@ -450,7 +636,7 @@ def pred_pure(c):
     return None
 
 
-PREDS.update({'fixed_vs_model': pred_pure, 'exec_vs_model': pred_pure, 'fpm_vs_model': pred_pure})
+PREDS.update({'fixed_vs_model': pred_pure, 'exec_vs_model': pred_pure, 'fpm_vs_model': pred_pure, 'babinet_vs_model': pred_babinet_model, 'embed_vs_model': pred_embed, 'history': pred_history})
 
 
 def eval_pred(item, c):
@@ -620,6 +806,32 @@ def correspondence(ctx):
             j, k = int(rng.integers(c['m'])), int(rng.integers(c['n']))
             lines.append(' '.join(['fpmpt'] + head[1:] + [str(j), str(k)] + nums + _wire_field(f) + _wire_field(mk)))
             meta.append(('fpmpt', (c, f, mk, sh, j, k)))
+    for i in range(max(20, n_fpm // 2)):
+        c = gen_fpm(rng, hi, i) if i % 3 else dict(gen_allpass(rng, hi, i), mask=['real', 'complex', 'binary'][i % 3 - 1] if i % 9 else 'bool')
+        if 'M' in c and 'My' not in c:
+            c['My'] = c['Mx'] = c['M']
+        if min(c['m'], c['n']) < 1:
+            continue
+        c['shift'] = [0, 0]
+        c['lyot'] = ['complex', 'binary', 'none'][i % 3]
+        c['mask_wf'] = [False, True, 'with_dx', False][i % 4]
+        f, mk, lyot = _bab_args(c)
+        head = ['bab', str(c['m']), str(c['n']), str(c['My']), str(c['Mx'])]
+        nums = [C.f2w(v) for v in (c['dx'], c['efl'], c['lam'], c['fdx'])]
+        data = _wire_field(f) + _wire_field(_num(np.asarray(mk))) + _wire_field(lyot if lyot is not None else np.ones(f.shape))
+        lines.append(' '.join(head + nums + data))
+        meta.append(('bab', (c, None, None)))
+        if i < 4:
+            j, k = int(rng.integers(c['m'])), int(rng.integers(c['n']))
+            lines.append(' '.join(['babpt'] + head[1:] + [str(j), str(k)] + nums + data))
+            meta.append(('babpt', (c, j, k)))
+    for i in range(ctx.scale(40, 150)):
+        m, n = int(rng.integers(1, hi + 1)), int(rng.integers(1, hi + 1))
+        a, b = int(rng.integers(0, 8)), int(rng.integers(0, 8))
+        c = {'m': m, 'n': n, 'pad': [a, b], 'seed': int(rng.integers(1 << 30))}
+        f = _field(c['seed'], (m, n))
+        lines.append(' '.join(['emb', str(m), str(n), str(m + a), str(n + b)] + _wire_field(f)))
+        meta.append(('emb', (c, f)))
     replies = C.lean_driver('C05', lines)
 
     for (kind, dat), rep in zip(meta, replies):
@@ -662,6 +874,50 @@ def correspondence(ctx):
             err = _relerr(a, b) if out.shape == mod.shape else float('inf')
             if err > L.tol_of(c, TOL):
                 ctx.disagree('exec_vs_model', c, f'shape {out.shape}', f'rel. err {err:.3g}')
+            continue
+        if kind == 'emb':
+            c, f = dat
+            shape = (c['m'] + c['pad'][0], c['n'] + c['pad'][1])
+            ctx.case('embed_vs_model', c, nontrivial=any(c['pad']), tag=f"par{shape[0] % 2}{shape[1] % 2}-from-par{c['m'] % 2}{c['n'] % 2}")
+            mod = _unwire_field(rep.split(), shape)
+            try:
+                real = ft.pad2d(f, out_shape=shape)
+            except Exception as ex:
+                ctx.disagree('embed_vs_model', c, f'pad2d raised {type(ex).__name__}: {ex}', 'model returns an array')
+                continue
+            if real.shape != mod.shape or not np.array_equal(real, mod) or not np.array_equal(embed(f, shape), mod):
+                ctx.disagree('embed_vs_model', c, 'fttools.pad2d(f, out_shape=...) / harness embed', 'Model.C05.embed', note='zero-pad embedding')
+            continue
+        if kind in ('bab', 'babpt'):
+            c = dat[0]
+            f, mk, lyot = _bab_args(c)
+            Mtag = 'band-complete' if ('M' in c and c['My'] == c['Mx'] == c['M']) else 'general'
+            tag = f"{c['mask']}/{c['method']}/{'sq' if c['m'] == c['n'] else 'nonsq'}/lyot-{c['lyot']}/mask-wf-{c['mask_wf']}/{Mtag}"
+            ctx.case('babinet_vs_model', c, nontrivial=f.size > 1, tag=tag)
+            try:
+                out = _bab_call(c, f, mk, lyot)
+                d = pred_babinet_model(c)       # independent oracle + container + purity on the same case
+                if d is not None:
+                    ctx.pred_fail('babinet_vs_model', c, d)
+                bad = L.check_wavefront(out, 'babinet(...)', f.shape, c['dx'], c['lam'], 'pupil')
+                if bad:
+                    ctx.disagree('babinet_vs_model', c, bad, 'a pupil-plane Wavefront', note='returned container')
+                    continue
+                out = out.data
+            except Exception as ex:
+                ctx.disagree('babinet_vs_model', c, f'raised {type(ex).__name__}: {ex}', 'model returns a field')
+                continue
+            if kind == 'babpt':
+                j, k = dat[1], dat[2]
+                re, im = rep.split()
+                mod = C.w2f(re) + 1j * C.w2f(im)
+                if abs(out[j, k] - mod) > L.tol_of(c, TOL) * max(1.0, np.abs(out).max()):
+                    ctx.disagree('babinet_vs_model', dict(c, point=[j, k]), complex(out[j, k]), mod, note='Model.C05.babinet pointwise')
+                continue
+            mod = _unwire_field(rep.split(), f.shape)
+            err = _relerr(out, mod) if out.shape == mod.shape else float('inf')
+            if err > L.tol_of(c, TOL):
+                ctx.disagree('babinet_vs_model', c, f'shape {out.shape}', f'rel. err {err:.3g}')
             continue
         if kind in ('fpm', 'fpmpt'):
             c, f, mk, sh = dat[:4]
@@ -724,6 +980,14 @@ def correspondence(ctx):
         run('return_more', c, True, tag=f"{'wf' if c['wavefront'] else 'fn'}/mask_wf-{c['mask_wf']}")
         if i % 2 == 0:
             run('fpm_field', c, True, tag=f"{c['mask']}/{c['dtype']}")
+    n_hist = 2 * len(HIST_FWD) * len(HIST_BP) + ctx.scale(60, 400) * wide
+    for i in range(n_hist):
+        c = gen_history(rng, min(hi, 9), i)
+        h = c['history']
+        bp_then_fwd = any(a in HIST_BP and b in HIST_FWD for k, a in enumerate(h) for b in h[k + 1:])
+        run('history', c, bp_then_fwd,
+            tag=(f"{'pair' if i < 2 * len(HIST_FWD) * len(HIST_BP) else 'random'}/{h[0]}-{h[1]}/len{len(h)}/"
+                 f"{'shift' if any(c['shift']) else 'noshift'}"))
 
 
 # ------------------------------------------------------------------------------------------------
@@ -798,6 +1062,14 @@ def _small_scope():
 
 
 def search(ctx, hints):
+    # a case on which the correspondence saw the real code disagree with the model (or raise): evaluate the property's own
+    # predicate for that item on exactly that input first
+    for dg in (hints or {}).get('disagreements', [])[:50]:
+        case = {k: v for k, v in dg['case'].items() if k != 'point'} if isinstance(dg.get('case'), dict) else None
+        if case is not None and dg.get('item') in PREDS:
+            d = eval_pred(dg['item'], case)
+            if d is not None:
+                return {'item': dg['item'], 'input': case, 'detail': d}
     for c in _corpus():
         d = eval_pred(c['item'], c['input'])
         if d is not None:
@@ -806,6 +1078,14 @@ def search(ctx, hints):
         d = eval_pred(item, c)
         if d is not None:
             return {'item': item, 'input': c, 'detail': d}
+    hrng = np.random.Generator(np.random.PCG64(7))
+    for sh in ((0, 0), (1.5, -2.25)):
+        for a in HIST_FWD:
+            for b in HIST_BP:
+                c = _hist_case(hrng, 5, [a, b, a], shift=sh)
+                d = eval_pred('history', c)
+                if d is not None:
+                    return {'item': 'history', 'input': c, 'detail': d}
     rng = np.random.Generator(np.random.PCG64(ctx.seed + 2000))
     for i in range(ctx.scale(300, 2000)):
         cf, ce, ca, cm = gen_fixed(rng, 9, i), gen_exec(rng, 9, i), gen_allpass(rng, 9, i), gen_fpm(rng, 9, i)
@@ -843,16 +1123,16 @@ MANIFEST_ENTRY = {
              'per-axis Q of both free functions the kernel constant 1/(n_a Q_a) does not depend on the sample count; transposing the '
              'input and swapping the per-axis arguments transposes the output (also at executor level with per-axis Q); a separable '
              'field transforms to the product of the per-axis transforms; the mask-and-return path is additive and C-homogeneous in '
-             'the mask (Babinet: mask + complement = unmasked) and linear in the field; an all-pass mask on a band-complete M x M '
+             'the mask (Babinet: mask + complement = unmasked) and linear in the field; the whole mask path to_fpm_and_back is transposed when field, mask and shift components are transposed (every pupil and mask shape) and, for a field embedded in a larger zero array, returns on the window of the original samples exactly what the original array returns; Wavefront.babinet (model: Lyot stop x [field - return through 1 - mask]) splits into the band-limiting residual plus Lyot x return(mask) on every grid and equals Lyot x to_fpm_and_back(mask) on a band-complete grid (the Babinet principle, also instantiated with exp(-2 pi i t)); an all-pass mask on a band-complete M x M '
              'grid (M fpm_dx dx = lambda f, M >= both pupil sides) returns the field exactly for EVERY mask shift, from '
              'root-of-unity orthogonality, itself proved from the character law when the kernel of e is Z (instantiated with '
              'exp(-2 pi i t)); the model toFpmAndBack these theorems speak about equals the mask-and-return sum fed with the '
-             'GENERATED constants of both legs, and the arrays the Lean driver prints are these models. These are statements about '
+             'GENERATED constants of both legs, and the arrays the Lean driver prints are these models (babinet table included: driver_babinet_table_is_model). These are statements about '
              'the transform model; that method=czt and method=mdft both compute it is C03.ffs_czt_engine_eq_model / C01. '
-             'TRANSLATED from the current source each run (9 items): to_fpm_and_back with both legs inlined by symbolic execution, '
+             'TRANSLATED from the current source each run (10 items): to_fpm_and_back with both legs inlined by symbolic execution, '
              'for an array mask and for a Wavefront mask (identical leg arguments required) — per-axis Q of each leg, the shift each '
              'leg finally hands to its transform (theorem: both equal shift/fpm_dx), the requested shapes; Q/shift glue of '
-             'focus/unfocus_fixed_sampling. RECOGNISERS (Bool facts): mask enters as a plain product and that product travels back, '
+             'focus/unfocus_fixed_sampling; the pointwise arithmetic of Wavefront.babinet (mask handed down = 1 - fpm, field at the Lyot plane = self.data - returned.data, stop applied as a product / skipped when None; theorem gen_babinet: composed around the mask-path model they ARE Model.C05.babinet). RECOGNISERS (Bool facts): no entry point sharing the executor caches (dft2, idft2, czt2, iczt2 and the *_backprop entry points) applies an in-place NumPy operation to an object read from a cache or to a view of one (gen_no_inplace_on_caches); mask enters as a plain product and that product travels back, '
              'order of the return_more tuple, wiring of Wavefront.to_fpm_and_back and the dx/space it labels each returned plane '
              'with, babinet = field - return(1 - fpm). '
              'MODELLED AND COMPARED: focus/unfocus_fixed_sampling, the mdft/czt executors (incl. per-axis Q) and to_fpm_and_back '
@@ -862,7 +1142,7 @@ MANIFEST_ENTRY = {
              'transpose/pad/separability, all-pass (array or Wavefront mask with or without fpm_dx, function and Wavefront method, '
              'returned container checked), Babinet additivity/complement/homogeneity, field-linearity/pad/transpose/method agreement '
              'of to_fpm_and_back itself, return_more planes (values, order, dx, space) of to_fpm_and_back, its Wavefront method and '
-             'babinet, Lyot stop as array or Wavefront.'),
+             'babinet, Lyot stop as array or Wavefront; Wavefront.babinet against the Lean model (table and pointwise from Model.C05.babinet) and against explicit physical-units sums, masks real/complex/binary/bool/int/strided as arrays or Wavefronts, Lyot stop complex/binary/absent, band-complete and general mask grids; call histories interleaving forward, inverse and *_backprop entry points on one sampling key: every step equals the same call on a freshly cleared executor (history); Model.C05.embed (the embedding of the pad-invariance theorems) against fttools.pad2d(out_shape=...) exactly, every parity of both shapes.'),
     'note': ('Trusted: Lean kernel + standard axioms; ast->Lean translator (validated by execution); numpy/scipy; float64 rounding '
-             '(tolerance 1e-9, observed 1e-14). Not covered: *_backprop functions (C06), float32 mode, other backends.'),
+             '(tolerance 1e-9, observed 1e-14). Not covered: the VALUES of the *_backprop functions (C06; here they only appear as steps of call histories), float32 mode, other backends.'),
 }
